@@ -31,6 +31,7 @@ impl<R: Dev> Dev for Crc32Reader<R> {
 impl<R> Crc32Reader<R> {
 //@use crc32reader_new nobody
 //@use crc32reader_into_inner nobody
+//@use crc32reader_get_mut nobody
 }
 impl<R: Read> Read for Crc32Reader<R> {
 //@use crc32reader_read nobody
@@ -58,8 +59,12 @@ impl<'a> Dev for CryptoReader<'a> {
 impl<'a> Read for CryptoReader<'a> {
     // a plaintext (unencrypted) entry reads straight from its bounded view of the archive
     open spec fn g_read_rel(&self, after: &Self, buf_len: int, out: Seq<u8>, r: io::Result<usize>) -> bool {
-        (*self) matches CryptoReader::Plaintext(t0) ==> ((*after) matches CryptoReader::Plaintext(t1)
+        &&& (*self) matches CryptoReader::Plaintext(t0) ==> ((*after) matches CryptoReader::Plaintext(t1)
             && take_read(t0.inner, t0.limit, t1.inner, t1.limit, buf_len, out, r is Ok, (if r is Ok { r->Ok_0 as int } else { 0 })))
+        // an AES entry reads through its authenticating reader (whose read relation says: end-of-file only after the code was checked)
+        &&& (*self) matches CryptoReader::Aes { reader: a0, vendor_version: v0 } ==> ((*after) matches CryptoReader::Aes { reader: a1, vendor_version: v1 }
+            && v1 == v0 && a0.g_read_rel(&a1, buf_len, out, r))
+        &&& ((*self) is ZipCrypto ==> (*after) is ZipCrypto)
     }
 //@use cryptoreader_read
 }
@@ -85,8 +90,10 @@ impl<'a> Dev for ZipFileReader<'a> {
 impl<'a> Read for ZipFileReader<'a> {
 //@use zipfilereader_read
 }
+//@include common/reader_std_models.rs
 //@impl src/read.rs | impl<'a> ZipFileReader<'a>
 impl<'a> ZipFileReader<'a> {
+//@use zipfilereader_authenticate_rest
 //@use zipfilereader_into_inner
 }
 
